@@ -128,6 +128,19 @@ func C03(p *Prog, r *Run) {
 		r.c03Counters(sums)
 	})
 
+	r.Rule("C03.6", "what a number denotes does not depend on who reuses it: the two genes of a split are built from the same endpoints and the split link's own recurrence flag on the reuse path and on the novel path alike (obligations shared with C05.1)", func() {
+		sub := NewRun(p, "C05", r.Tier)
+		C05(p, sub)
+		n := 0
+		for _, o := range sub.Obs {
+			if o.Rule == "C05.1" && strings.HasPrefix(o.Construct, "add-node.gene") {
+				r.add(o.Status, "C05.1:"+o.Construct, o.Pos, o.Detail, o.Path)
+				n++
+			}
+		}
+		r.Floor("add-node gene obligations shared with C05.1", n, 2)
+	})
+
 	r.Rule("C03.5", "the innovation records are forgotten on every non-error path of NextEpoch, for both executors", func() {
 		r.c03Reset()
 	})
@@ -179,17 +192,32 @@ func (r *Run) c03Counters(sums *Summaries) {
 	for _, b := range lastNode.Blocks {
 		if ret, ok := b.Instrs[len(b.Instrs)-1].(*ssa.Return); ok && ltm.Of(ret.Results[1]).Op == "nil" {
 			okL = true
-			has := false
+			has, hasCG := false, false
 			for _, a := range ltm.Of(ret.Results[0]).Alternatives() {
 				if a.Op == "field" && a.Name == "Id" && strings.HasPrefix(a.Args[0].String(), "recv.Nodes[") {
 					has = true
 				} else if a.Op == "field" && a.Name == "Id" && strings.Contains(a.String(), "ControlNode") {
+					// the maximum over ALL modules: the control node of the element at the loop's own index
+					if !strings.Contains(a.String(), "recv.ControlGenes[*].ControlNode") {
+						okL = false
+					}
+					hasCG = true
 				} else if a.Op == "loop" {
 				} else {
 					okL = false
 				}
 			}
-			okL = okL && has
+			okL = okL && has && hasCG
+			if okL {
+				// ... taken in a loop that ranges over all control genes
+				inLoop := false
+				for _, l := range Loops(lastNode) {
+					if loopRangesOver(ltm, l, "recv.ControlGenes") {
+						inLoop = true
+					}
+				}
+				okL = inLoop
+			}
 		}
 	}
 	for _, b := range nextGene.Blocks {
